@@ -156,8 +156,13 @@ def boolnone_like(rng: random.Random) -> str:
 def text(rng: random.Random, cls: str | None = None) -> str:
     """a single-line string leaf of a given class (see DESIGN 7 / C01)"""
     classes = ["word", "empty", "multi", "path", "delim", "nested1", "nested2", "backslash", "exotic", "numlike",
-               "boolnone", "placeholderish", "punct", "padded", "linesep", "vocab"]
+               "boolnone", "placeholderish", "punct", "padded", "linesep", "vocab", "combo"]
     cls = cls or rng.choice(classes)
+    if cls == "combo":
+        # two special features in one string (a UNC path with an apostrophe, a quoted segment after a run of backslashes, ...):
+        # the writer's quoting branches are chosen by the first feature they test for
+        a, b = (text(rng, rng.choice(["path", "backslash", "nested2", "delim", "punct", "multi", "padded"])) for _ in range(2))
+        return rng.choice([a + " " + b, a + b, "\\\\" + word(rng, 5) + "\\" + word(rng, 4) + rng.choice(["'s ", "\"s "]) + word(rng, 4) + rng.choice(["", "\\\\" + word(rng, 3)])])
     if cls == "word":
         return word(rng)
     if cls == "empty":
